@@ -124,6 +124,44 @@ def c17_total_always_one():
     return total != 3, f"server answered total={total} for a 3-row result (the connector reports it as rowcount)"
 
 
+def c17_scale_zero_number_types_differ():
+    """End to end over loopback: real uvicorn server thread, real snowflake connector."""
+    import socket
+    import threading
+    import time
+
+    import snowflake.connector
+    import uvicorn
+
+    import fakesnow
+    import fakesnow.server
+
+    sk = socket.socket()
+    sk.bind(("127.0.0.1", 0))
+    port = sk.getsockname()[1]
+    sk.close()
+    server = uvicorn.Server(uvicorn.Config(fakesnow.server.app, port=port, log_level="error"))
+    th = threading.Thread(target=server.run, daemon=True)
+    th.start()
+    t0 = time.time()
+    while not server.started and time.time() - t0 < 20:
+        time.sleep(0.05)
+    q = "select 12::number(38,0) as n"
+    try:
+        conn = snowflake.connector.connect(
+            user="fake", password="snow", account="fakesnow", host="localhost", port=port, protocol="http", network_timeout=5,
+            session_parameters={"CLIENT_OUT_OF_BAND_TELEMETRY_ENABLED": False, "FAKESNOW_DB_PATH": ":isolated:"},
+        )  # fmt: skip
+        http = conn.cursor().execute(q).fetchall()
+        conn.close()
+    finally:
+        server.should_exit = True
+        th.join(timeout=10)
+    inproc = fakesnow.FakeSnow().connect(database="db1", schema="s1").cursor().execute(q).fetchall()
+    a, b = type(http[0][0]).__name__, type(inproc[0][0]).__name__
+    return a != b, f"{q}: over HTTP {http} ({a}), in-process {inproc} ({b})"
+
+
 def _merge_session(t1, t2, ddl1="create table t1 (k int, v int, w int)"):
     from vf.real import real_conn
 
